@@ -644,13 +644,15 @@ func (r *proxyStreamReceiver) Run(
 	r.ackChan = make(chan RoutedAck, 100)
 	if r.shardManager != nil {
 		r.shardManager.SetLocalAckChan(r.sourceShardID, r.ackChan)
-		r.shardManager.SetLocalReceiverCancelFunc(r.sourceShardID, cancel)
-		// Register receiver for watermark propagation to late-registering shards
+		// Register receiver for watermark propagation to late-registering shards. It is registered before
+		// its cancel function so that UnregisterLocalReceiver can tell whose cancel function is stored.
 		r.shardManager.RegisterActiveReceiver(r.sourceShardID, r)
+		r.shardManager.SetLocalReceiverCancelFunc(r.sourceShardID, cancel)
 		defer func() {
+			// Remove only this incarnation's entries: a newer receiver for the same shard may have
+			// registered while this one was shutting down.
 			r.shardManager.RemoveLocalAckChan(r.sourceShardID, r.ackChan)
-			r.shardManager.RemoveLocalReceiverCancelFunc(r.sourceShardID)
-			r.shardManager.UnregisterActiveReceiver(r.sourceShardID)
+			r.shardManager.UnregisterLocalReceiver(r.sourceShardID, r)
 		}()
 	}
 
